@@ -122,7 +122,14 @@ func addSQLFeatures(g *gen) {
 		}
 		if len(cols) > 0 && g.chance(0.3) {
 			c1, c2 := pick(g.rng, cols), pick(g.rng, cols)
-			s.Doc = append(s.Doc, fmt.Sprintf(" gomacro:QUERY Query%s UPDATE %s SET %s = $v$ WHERE %s = $w$ OR %s = $v$;", s.Name, s.Name, c1, c2, c1))
+			switch g.rng.Intn(3) {
+			case 0:
+				s.Doc = append(s.Doc, fmt.Sprintf(" gomacro:QUERY Query%s UPDATE %s SET %s = $v$ WHERE %s = $w$ OR %s = $v$;", s.Name, s.Name, c1, c2, c1))
+			case 1: // a variable used again outside an equality, a new variable after a repetition
+				s.Doc = append(s.Doc, fmt.Sprintf(" gomacro:QUERY Query%s UPDATE %s SET %s = $v$ WHERE (%s = $w$ OR %s = $w$) AND %s = $x$ AND %s <> $v$;", s.Name, s.Name, c1, c2, c2, c1, c1))
+			default:
+				s.Doc = append(s.Doc, fmt.Sprintf(" gomacro:QUERY Query%s DELETE FROM %s WHERE %s = $a$ AND %s < $a$;", s.Name, s.Name, c1, c1))
+			}
 			g.c.AddFeat("sql:query")
 		}
 		if i > 0 && g.chance(0.2) {
